@@ -404,6 +404,14 @@ pub fn shape_families(tier: Tier) -> Vec<(&'static str, String, Option<String>)>
         out.push(("pattern-shape", format!("{decl}fn f(x: Data) {{\n  if x is {p}: Foo {{\n    1\n  }} else {{\n    2\n  }}\n}}\n")));
         out.push(("pattern-shape", format!("{decl}fn f(xs: List<Foo>) {{\n  when xs is {{\n    [{p}, ..] | [_, {p}] -> 1\n    _ -> 2\n  }}\n}}\n")));
     }
+    // (2b) literal patterns in every notation, at the top and nested
+    for lit in ["0", "1", "-1", "42", "-42", "0xFF", "0xff", "-0x10", "0b101", "-0b1", "0o17", "1_000", "-1_000_000", "-100_000", "100_000", "-0xFF", "#\"00ff\"", "\"utf8\"", "#[1, 2]"] {
+        for shape in ["@", "Some(@)", "[@, ..]", "(@, _)", "Pair(_, @)", "Foo { a: @, .. }", "@ | 7"] {
+            let p = shape.replace('@', lit);
+            out.push(("pattern-shape", format!("{decl}fn f(x) {{\n  when x is {{\n    {p} -> 1\n    _ -> 2\n  }}\n}}\n")));
+            out.push(("pattern-shape", format!("{decl}fn f(x) {{\n  expect {p} = x\n  1\n}}\n")));
+        }
+    }
     // (3) soft casts: subject x pattern x annotation, in first and in `else if` position
     let subjects = ["x", "g(x)", "x.a", "(x)"];
     let soft_pats = ["", "_", "_y", "y", "x", "Foo { a, .. }", "Foo { a: _, .. }", "Some(z)", "(p, q)", "[h, ..]"];
